@@ -407,6 +407,10 @@ func (t *Tombstoner) commit() error {
 	t.bw = nil
 	t.gz = nil
 
+	// The tombstone file exists (or has grown) only now: stats looked up between
+	// AddRange and this commit recorded that there is no file yet.
+	t.statsLoaded = false
+
 	return nil
 }
 
